@@ -191,6 +191,48 @@ func runC09(r *ev.Run) {
 				pending[d.ID] = true
 				docVecs[d.ID] = cloneF32(d.Vec)
 				log = append(log, fmt.Sprintf("add %d", d.ID))
+				// a document that carries ONLY what this store has no index for (text for a store without a text template,
+				// ...): whether it is accepted or refused, it is searchable through nothing, and it must not damage the
+				// segment it shares with real documents
+				if (!p.Text || !p.Meta || p.VecKind == "") && rng.IntN(6) == 0 {
+					gid := ids.next()
+					var gv []float32
+					gt, gm := "", map[string]any(nil)
+					switch {
+					case !p.Text:
+						gt = "common ghost text"
+					case !p.Meta:
+						gm = map[string]any{"kind": "doc", "n": 1}
+					default:
+						gv = make([]float32, 3)
+						gv[0] = 1
+					}
+					err := s.AddWithID(gid, gv, gt, gm)
+					log = append(log, fmt.Sprintf("add %d carrying only an unconfigured modality -> %v", gid, err))
+					if err == nil {
+						ever[gid] = true
+						r.Count("ops:add-carrying-only-an-unconfigured-modality:accepted", 1)
+					} else {
+						r.Count("ops:add-carrying-only-an-unconfigured-modality:refused", 1)
+					}
+				}
+				// Remove of a document that already lives in a segment is refused (documented): it must change nothing,
+				// in particular not what the next Flush / Close persists
+				if len(durable) > 0 && rng.IntN(5) == 0 {
+					for k := 0; k < 1+rng.IntN(3) && len(durable) > 0; k++ {
+						dk := sortedKeys(durable)
+						rid := dk[rng.IntN(len(dk))]
+						err := s.Remove(rid)
+						log = append(log, fmt.Sprintf("Remove(%d) of a flushed document -> %v", rid, err))
+						if err == nil {
+							delete(durable, rid) // accepted after all: then it is gone, and no longer owed
+							delete(docVecs, rid)
+							r.Count("ops:remove-of-flushed-document-accepted", 1)
+						} else {
+							r.Count("ops:remove-of-flushed-document-refused", 1)
+						}
+					}
+				}
 				if rng.IntN(8) == 0 {
 					switch rng.IntN(6) {
 					case 0:
